@@ -25,6 +25,9 @@ protected:
   std::deque<std::string> tokens_;
   std::deque<std::string> splits_;
 
+  /** @brief The delimiters skipped before the first token. */
+  std::string lead_;
+
   /** @brief the current position in the token list. */
   size_t currentPosition_;
 
@@ -42,7 +45,7 @@ public:
   virtual ~StringTokenizer() {}
 
 public:
-  StringTokenizer() : tokens_(), splits_(), currentPosition_(0) {}
+  StringTokenizer() : tokens_(), splits_(), lead_(), currentPosition_(0) {}
 
 public:
   /**
